@@ -891,4 +891,82 @@ example :
       [(['k','e','y'], some true, some true, some false),
        (['O','v','e','r','r','i','d','e'], some false, some false, some true)] := by decide
 
+/-! ### parameters of an overriding method (`resolveParam`, `resolveParams`, `copyParam`) -/
+
+/-- concrete parameters for the examples: Base.m(a [IN], b [IN]) and the override Sub.m(A, c) -/
+def wIN : QDecl :=
+  { name := ['I','N'], ty := 0, scopes := [.param], anyScope := false, tosub := some true,
+    overr := some false, transl := none }
+def wPa : Param := { name := ['a'], ty := 2, isArr := false, arrSize := none, emb := none, refcls := none,
+                     quals := [{ name := ['I','N'], ty := 0, val := .tok 1, tosub := some true }] }
+def wPb : Param := { wPa with name := ['b'] }
+def wPA : Param := { wPa with name := ['A'], quals := [] }
+def wPc : Param := { wPa with name := ['c'], quals := [{ name := ['i','n'], ty := 0, val := .tok 0 }] }
+
+/-- **An overriding method exposes own ∪ (overridden minus redeclared) parameters**, own ones first,
+    names compared case-insensitively (`Spec.exposedNames`) — "parameters of the class and of all its
+    ancestors, the nearest declaration wins". -/
+theorem C12_overriding_method_parameters_exposed (decls : List QDecl) (own overridden r : List Param)
+    (h : resolveParams decls own overridden = .ok r) :
+    r.map (·.name) = Spec.exposedNames (own.map (·.name)) (overridden.map (·.name)) :=
+  resolveParams_names h
+
+example : ∃ r, resolveParams [wIN] [wPA, wPc] [wPa, wPb] = .ok r ∧ r.map (·.name) = [['A'], ['c'], ['b']] :=
+  ⟨okOr (resolveParams [wIN] [wPA, wPc] [wPa, wPb]) [], by decide, by decide⟩
+
+/-- **Every parameter of an overriding method is accounted for**: it is
+    (1) a declared parameter the overridden method does not have: unchanged but for its qualifiers,
+        which are initialised like those of any new element (`resolveQuals … [] false`); or
+    (2) a declared parameter the overridden method has, without Override qualifier: exactly as declared; or
+    (3) a declared parameter with an Override qualifier naming a parameter of the overridden method of the
+        same type, array-ness, array size and embedded-object kind: its qualifiers resolved against that
+        parameter's (`resolveQuals … true`, so the qualifier theorems above apply); or
+    (4) a parameter of the overridden method that is not redeclared: copied with exactly its
+        non-Restricted qualifiers, marked propagated (`copyParam`).
+    Type, array-ness, array size, embedded-object kind and reference class of declared parameters are
+    never changed. -/
+theorem C12_overriding_method_parameters_accounted (decls : List QDecl) (own overridden r : List Param)
+    (h : resolveParams decls own overridden = .ok r) :
+    ∀ x ∈ r,
+      (∃ p ∈ own, x.name = p.name ∧ x.ty = p.ty ∧ x.isArr = p.isArr ∧ x.arrSize = p.arrSize ∧
+          x.emb = p.emb ∧ x.refcls = p.refcls ∧
+          ((hasParam overridden p.name = false ∧ resolveQuals decls p.quals [] false = .ok x.quals) ∨
+           (hasParam overridden p.name = true ∧ hasQual p.quals nOverride = false ∧ x = p) ∨
+           (hasParam overridden p.name = true ∧ hasQual p.quals nOverride = true ∧
+              ∃ oname sp, keyOfVal (overrideVal p.quals) = .ok oname ∧ findParam overridden oname = some sp ∧
+                sp.ty = p.ty ∧ sp.isArr = p.isArr ∧ sp.arrSize = p.arrSize ∧ sp.emb = p.emb ∧
+                resolveQuals decls p.quals sp.quals true = .ok x.quals))) ∨
+      (∃ sp ∈ overridden, hasParam own sp.name = false ∧ x = copyParam sp) := by
+  intro x hx
+  rcases resolveParams_members h x hx with ⟨p, hp, hpx⟩ | hcopy
+  · obtain ⟨a, b, c, d, e, f, g⟩ := resolveParam_ok hpx
+    exact Or.inl ⟨p, hp, a, b, c, d, e, f, g⟩
+  · exact Or.inr hcopy
+
+/-- inherited (not redeclared) parameters carry exactly the non-Restricted qualifiers of the overridden
+    method's parameter, marked propagated -/
+theorem C12_inherited_parameter_quals_per_flavor (p : Param) (q : Qual) :
+    q ∈ (copyParam p).quals ↔ ∃ q0 ∈ p.quals, q0.tosub ≠ some false ∧ q = { q0 with propagated := some true } := by
+  simp only [copyParam, copyQuals, List.mem_map, List.mem_filter]
+  constructor
+  · rintro ⟨q0, ⟨h1, h2⟩, rfl⟩; exact ⟨q0, h1, by simpa using h2, rfl⟩
+  · rintro ⟨q0, h1, h2, rfl⟩; exact ⟨q0, ⟨h1, by simpa using h2⟩, rfl⟩
+
+example : (okOr (resolveParams [wIN] [wPA, wPc] [wPa, wPb]) []).map (fun x => (x.name, x.quals.map (fun q => (q.name, q.propagated, q.tosub)))) =
+    [(['A'], []), (['c'], [(['i','n'], some false, some true)]), (['b'], [(['I','N'], some true, some true)])] := by
+  decide
+
+/-- **Where the parameters of a resolved method come from**: a method the superclass does not have
+    keeps its declared parameters untouched (open finding C12-param-qualifiers-unresolved: their
+    qualifiers are NOT resolved); a property has none; an overriding method gets
+    `resolveParams` of its declared parameters against the parameters of the superclass method of the
+    same name. -/
+theorem C12_method_parameters_source (decls : List QDecl) (n : Name) (inherited : List Elem) (e e' : Elem)
+    (h : resolveElem decls n inherited e = .ok e') :
+    (hasElem inherited e.name = false ∧ e'.params = e.params) ∨
+    (hasElem inherited e.name = true ∧ e.isMeth = false ∧ e'.params = e.params) ∨
+    (hasElem inherited e.name = true ∧ e.isMeth = true ∧ ∃ s, findElem inherited e.name = some s ∧
+        resolveParams decls e.params s.params = .ok e'.params) :=
+  resolveElem_params h
+
 end C12
